@@ -53,13 +53,15 @@ FLOORS = {
                            "layer_cull_checked": 38000, "layer_cull_twice_checked": 9000, "task_deps_compared": 88000,
                            "optimize_blockwise_calls": 1100, "fused_values_checked": 4300, "layers_absorbed": 2800,
                            "ann_fused_groups_with_differing_annotations": 500, "fuse_roots_merged_layers": 400,
-                           "fuse_roots_ann_groups_with_annotations": 24, "complete_subset_spaces": 750},
+                           "fuse_roots_ann_groups_with_annotations": 24, "complete_subset_spaces": 750,
+                           "sibling_contraction_steps": 350},
               "sets": {"annotation_combinations": 450, "layer_features": 18}, "max_skipped_fraction": 0.05},
     "thorough": {"evaluations": 13500, "distinct_nontrivial": 13000,
                  "counters": {"hlg_cull_checked": 220000, "hlg_cull_twice_checked": 55000, "layer_cull_checked": 560000,
                               "layer_cull_twice_checked": 140000, "task_deps_compared": 1300000, "fused_values_checked": 64000,
                               "layers_absorbed": 42000, "ann_fused_groups_with_differing_annotations": 5400,
-                              "fuse_roots_merged_layers": 6000, "fuse_roots_ann_groups_with_annotations": 350},
+                              "fuse_roots_merged_layers": 6000, "fuse_roots_ann_groups_with_annotations": 350,
+                              "sibling_contraction_steps": 5500},
                  "sets": {"annotation_combinations": 4200, "layer_features": 25}, "max_skipped_fraction": 0.05},
 }
 EXHAUSTIVE_SPACE = ("every subset of output blocks for outputs with <= 6 blocks; all ordered pairs and triples of lattice "
@@ -271,6 +273,9 @@ def run_case(case, ctx):
     h = HighLevelGraph.merge(*[o.__dask_graph__() for o in outs]) if len(outs) > 1 else z.__dask_graph__()
     keys = list(flatten([o.__dask_keys__() for o in outs]))
     ctx.sig = (st.trace, [list(map(list, p.chunks)) for p in st.pool[:1]], case.get("anns"), case["dtype"], len(outs))
+    nsib = sum(s.startswith("sib_contract") for s in st.trace)
+    if nsib:
+        ctx.count("sibling_contraction_steps", nsib)
     nbw = sum(isinstance(l, Blockwise) for l in h.layers.values())
     ctx.count("blockwise_layers", nbw)
 
